@@ -443,12 +443,13 @@ def run(tier):
     refr = common.run_cases(drv, refc, tag="c20n")
     njobs = [(pi, arg, readings, rej, kind) for pi in range(len(nprogs)) for (arg, readings, rej) in NUMS for kind in ("-pc", "-b")]
 
+    for pi in range(len(nprogs)):  # (written before the parallel runs start: they share the files)
+        with open(os.path.join(wd, "num-%d.asm" % pi), "w") as f:
+            f.write("\n".join(nprogs[pi]) + "\n")
+
     def ngo(job):
         pi, arg, readings, rej, kind = job
         src = os.path.join(wd, "num-%d.asm" % pi)
-        if not os.path.exists(src):
-            with open(src, "w") as f:
-                f.write("\n".join(nprogs[pi]) + "\n")
         argv = [asmline] + (["-p", "-c", arg] if kind == "-pc" else ["-b", arg]) + [src]
         try:
             return subprocess.run(argv, capture_output=True, env=env, timeout=30, stdin=subprocess.DEVNULL)
